@@ -638,6 +638,41 @@ emit_flat(alignment_iter_t *it)
     fputc(']', vt_out);
 }
 
+/* The children of every word / phone once more, this time through a child iterator of the FIRST word / phone moved to
+ * them with alignment_iter_goto(): 1 iff it delivers exactly the entries alignment_iter_children() of that parent does. */
+static int
+goto_children_same(alignment_t *al)
+{
+    int level, ok = 1;
+    for (level = 0; level < 2; ++level) {
+        alignment_iter_t *pit = level == 0 ? alignment_words(al) : alignment_phones(al);
+        int pos = 0;
+        for (; pit; pit = alignment_iter_next(pit)) {
+            alignment_iter_t *want = alignment_iter_children(pit);
+            alignment_iter_t *p0 = level == 0 ? alignment_words(al) : alignment_phones(al);
+            alignment_iter_t *got = p0 ? alignment_iter_children(p0) : NULL;
+            if (p0)
+                alignment_iter_free(p0);
+            if (got && want)
+                got = alignment_iter_goto(got, pos);
+            while (want && got) {
+                if (alignment_iter_get(want) != alignment_iter_get(got))
+                    ok = 0;
+                want = alignment_iter_next(want);
+                got = alignment_iter_next(got);
+                ++pos;
+            }
+            if (want || got)
+                ok = 0;
+            for (; want; want = alignment_iter_next(want))
+                ++pos;
+            if (got)
+                alignment_iter_free(got);
+        }
+    }
+    return ok;
+}
+
 static void
 cmd_alignment(const char *tag)
 {
@@ -657,8 +692,9 @@ cmd_alignment(const char *tag)
     fprintf(vt_out, "{\"e\":\"Align\",\"tag\":\"%s\",\"null\":%s", tag, al ? "false" : "true");
     if (al) {
         int w;
-        fprintf(vt_out, ",\"again_same\":%s,\"reused\":%s,\"rescored\":%d,\"in_order\":%s,\"words\":",
-                al == al2 ? "true" : "false", reused ? "true" : "false", p, order_ok[2] ? "true" : "false");
+        fprintf(vt_out, ",\"again_same\":%s,\"goto_same\":%s,\"reused\":%s,\"rescored\":%d,\"in_order\":%s,\"words\":",
+                al == al2 ? "true" : "false", goto_children_same(al) ? "true" : "false", reused ? "true" : "false", p,
+                order_ok[2] ? "true" : "false");
         emit_align_level(alignment_words(al), 0);
         fprintf(vt_out, ",\"flat_phones\":");
         emit_flat(alignment_phones(al));
